@@ -83,6 +83,9 @@ type linOut struct {
 	Val  int
 	Ok   bool
 	Snap [linKeys]int
+	// Junk: the enumeration handed out something that no caller ever put in (a zero value, a nil
+	// definition, a key twice, a key nobody used)
+	Junk string
 }
 
 func keyName(k int) string { return fmt.Sprintf("k%d", k) }
@@ -345,12 +348,24 @@ func runLinD(lb *LinBinding, c *LinCase, replay bool) (ops []porcupine.Operation
 					if c.AtomicRange {
 						sc.atomic++
 					}
+					visited := map[string]bool{}
 					m.Range(func(key string, value int) bool {
+						known := false
 						for q := 0; q < linKeys; q++ {
 							if keyName(q) == key {
 								out.Snap[q] = value
+								known = true
 							}
 						}
+						switch {
+						case !known:
+							out.Junk = fmt.Sprintf("key %q, which nobody stored", key)
+						case value == 0:
+							out.Junk = fmt.Sprintf("(%s, 0): the zero value was never stored", key)
+						case visited[key]:
+							out.Junk = fmt.Sprintf("key %s twice", key)
+						}
+						visited[key] = true
 						return true
 					})
 					if c.AtomicRange {
@@ -369,12 +384,21 @@ func runLinD(lb *LinBinding, c *LinCase, replay bool) (ops []porcupine.Operation
 					if c.AtomicRange {
 						sc.atomic++
 					}
+					visited := map[string]bool{}
 					for _, md := range dr.GetMetas() {
+						if md == nil {
+							out.Junk = "a nil definition"
+							continue
+						}
 						for q := 0; q < linKeys; q++ {
 							if keyName(q) == md.Name() {
 								out.Snap[q] = defVal(md)
 							}
 						}
+						if visited[md.Name()] {
+							out.Junk = "definition " + md.Name() + " twice"
+						}
+						visited[md.Name()] = true
 					}
 					if c.AtomicRange {
 						sc.atomic--
@@ -390,12 +414,21 @@ func runLinD(lb *LinBinding, c *LinCase, replay bool) (ops []porcupine.Operation
 						sc.atomic++
 					}
 					if op.Kind == "toarray" {
+						visited := map[string]bool{}
 						for _, key := range s.ToArray() {
+							known := false
 							for q := 0; q < linKeys; q++ {
 								if keyName(q) == key {
 									out.Snap[q] = 1
+									known = true
 								}
 							}
+							if !known {
+								out.Junk = fmt.Sprintf("element %q, which nobody put in", key)
+							} else if visited[key] {
+								out.Junk = "element " + key + " twice"
+							}
+							visited[key] = true
 						}
 					} else {
 						out.Val = s.Length()
@@ -518,6 +551,14 @@ func judgeLin(c *LinCase, ops []porcupine.Operation) (vs []model.Violation, inco
 			}
 		}
 	}
+	// plain invariant: an enumeration hands out only what somebody put in, every key once
+	for _, op := range ops {
+		if out := op.Output.(linOut); out.Junk != "" {
+			vs = append(vs, model.Violation{Property: "C20", Oracle: "enumeration-hands-out-what-nobody-stored", Key: c.Target,
+				Detail: fmt.Sprintf("%s handed out %s; history: %s", mdl.DescribeOperation(op.Input, op.Output), out.Junk, describeHistory(mdl, ops))})
+			return vs, false
+		}
+	}
 	res := porcupine.CheckOperationsTimeout(mdl, ops, 10*time.Second)
 	switch res {
 	case porcupine.Ok:
@@ -526,8 +567,14 @@ func judgeLin(c *LinCase, ops []porcupine.Operation) (vs []model.Violation, inco
 		return vs, true
 	}
 	// illegal: is it only the scans?
-	var filtered []porcupine.Operation
+	var filtered, perKey []porcupine.Operation
 	removed := 0
+	nextClient := 0
+	for _, op := range ops {
+		if op.ClientId >= nextClient {
+			nextClient = op.ClientId + 1
+		}
+	}
 	for _, op := range ops {
 		in := op.Input.(linIn)
 		if isScan(in.Kind) {
@@ -539,12 +586,28 @@ func judgeLin(c *LinCase, ops []porcupine.Operation) (vs []model.Violation, inco
 			}
 			if overlaps {
 				removed++
+				// what an enumeration that is not a snapshot still owes: for every key, a mapping
+				// the key had at some moment of the call - one look-up per key, each on its own
+				if look := map[string]string{"range": "load", "toarray": "exists", "metas": "gbn"}[in.Kind]; look != "" {
+					out := op.Output.(linOut)
+					for q := 0; q < linKeys; q++ {
+						perKey = append(perKey, porcupine.Operation{ClientId: nextClient, Call: op.Call, Return: op.Return,
+							Input: linIn{Kind: look, Key: q}, Output: linOut{Val: out.Snap[q], Ok: out.Snap[q] != 0}})
+						nextClient++
+					}
+				}
 				continue
 			}
 		}
 		filtered = append(filtered, op)
+		perKey = append(perKey, op)
 	}
 	if removed > 0 && !c.AtomicRange && porcupine.CheckOperationsTimeout(mdl, filtered, 10*time.Second) == porcupine.Ok && len(vs) == 0 {
+		if porcupine.CheckOperationsTimeout(mdl, perKey, 10*time.Second) == porcupine.Illegal {
+			vs = append(vs, model.Violation{Property: "C20", Oracle: "enumeration-reports-a-mapping-the-key-never-had", Key: c.Target,
+				Detail: fmt.Sprintf("an enumeration that overlaps mutations reports, for some key, neither what the key held before, nor during, nor after the call (each key judged on its own): %s", describeHistory(mdl, ops))})
+			return vs, false
+		}
 		vs = append(vs, model.Violation{Property: "C20", Oracle: "range-not-a-snapshot", Key: c.Target,
 			Detail: fmt.Sprintf("history is not linearizable, but becomes linearizable once the %d Range/ToArray/Length call(s) that overlap a mutation are removed (the enumeration is not a snapshot): %s", removed, describeHistory(mdl, ops))})
 		return vs, false
